@@ -57,6 +57,8 @@ type Outcome struct {
 	Poisoned bool `json:"-"`
 	// filled by the parent
 	Crash *CrashInfo `json:"-"`
+	// Rerun: the batch watchdog fired while this case was running; it was run again alone and completed
+	Rerun bool `json:"-"`
 }
 
 func (o *Outcome) Count(k string, n int) {
@@ -228,8 +230,10 @@ func RunBatch(cases []Case, o Opts) []Outcome {
 						if c2 >= 0 && ci2 != nil {
 							res[crashed] = Outcome{Idx: crashed, Crash: ci2}
 						} else if len(o2) == 1 {
+							// the batch watchdog is a wall-clock limit: a case that runs to completion alone was slow, not
+							// stuck, and its outcome stands
 							res[crashed] = o2[0]
-							res[crashed].Inconclusive = "watchdog fired on a batch; the case ran to completion alone"
+							res[crashed].Rerun = true
 						}
 						done[crashed] = true
 						mu.Unlock()
@@ -431,6 +435,9 @@ func Apply(r *vf.Run, cases []Case, outs []Outcome, crashFeatures func(c Case) m
 		r.Eval(oc.Evals)
 		if oc.Sample != nil {
 			r.Sample(oc.Sample)
+		}
+		if oc.Rerun {
+			r.Count("cases_rerun_alone_after_a_batch_watchdog", 1)
 		}
 		if oc.Inconclusive != "" {
 			r.Count("inconclusive_cases", 1)
